@@ -337,3 +337,95 @@ Proof.
       cbn in Sm; try contradiction.
     eexists. reflexivity.
 Qed.
+
+(* ---------- the same for pages that also use components (in their insert bodies): the insert bodies
+   reach the reserves with their component blocks attached *)
+Definition ins_of_page_att (blocks : list (nat * list stmt)) (p : program) (name : bytes)
+  : option (nat * expr * option (list stmt)) :=
+  match alookup name (p_inserts p) with
+  | Some i => Some (ins_ln i, ins_arg i,
+                    match ins_body i with
+                    | Some b => Some (map (rw_stmt (fun cid => lookup_nat cid blocks) (fun _ => None) rw_fuel) b)
+                    | None => None
+                    end)
+  | None => None
+  end.
+
+Definition by_rid_att (blocks : list (nat * list stmt)) (p lp : program) (rid : nat) :=
+  match rid_name (p_reserves lp) rid with Some n => ins_of_page_att blocks p n | None => None end.
+
+Theorem load_page_with_layout_and_components fs cfg rel p lp uln lname blocks :
+  parse_file fs rel = LOk (PProg p) -> p_use p = Some (uln, lname) ->
+  parse_file fs (rel_of cfg lname) = LOk (PProg lp) ->
+  undefined_insert (asort (p_inserts p)) (p_reserves lp) = None ->
+  resolve_components fs cfg (abs_path rel) (p_components p) = LOk blocks ->
+  load_page fs cfg rel =
+    LOk ([SUse uln lname (Some (true, match p_use lp with Some _ => true | None => false end,
+                                map (rw_stmt (fun _ => None) (by_rid_att blocks p lp) rw_fuel) (p_stmts lp)))],
+         match p_reserves p with [] => false | _ => true end).
+Proof.
+  intros Hp Hu Hl Hi Hc. unfold load_page. rewrite Hp. cbv beta iota. rewrite Hu. cbv beta iota.
+  rewrite Hl. cbv beta iota. rewrite Hi. cbv beta iota. rewrite Hc. cbv beta iota.
+  match goal with |- LOk ([SUse _ _ (Some (_, _, ?a))], _) = LOk ([SUse _ _ (Some (_, _, ?b))], _) =>
+    assert (E : a = b); [|rewrite E; reflexivity] end.
+  apply map_ext. intro s. apply rw_ext; [reflexivity|]. intro rid. unfold by_rid_att, rid_name. clear Hi.
+  induction (p_reserves lp) as [|[n r] rs IH]; [reflexivity|].
+  destruct (Nat.eqb r rid); [|exact IH]. reflexivity.
+Qed.
+
+Theorem page_with_components_renders_filled_layout fs cfg rel p lp uln lname blocks L ins fsp gd (data : list (bytes * value)) :
+  parse_file fs rel = LOk (PProg p) -> p_use p = Some (uln, lname) ->
+  parse_file fs (rel_of cfg lname) = LOk (PProg lp) -> p_use lp = None ->
+  undefined_insert (asort (p_inserts p)) (p_reserves lp) = None ->
+  resolve_components fs cfg (abs_path rel) (p_components p) = LOk blocks ->
+  map strip_s (p_stmts lp) = map strip_s (map cnode L) ->
+  Forall (lay (rid_name (p_reserves lp)) rw_fuel) L -> nodes_ok L ->
+  (* the page's inserts, with the component blocks attached, are those of ins *)
+  (forall name, match ins_of_page_att blocks p name with Some x => Some (strip_ins x) | None => None end =
+                match ins name with Some i => Some (strip_ins (cins i)) | None => None end) ->
+  ins_ok ins ->
+  env_from_map gd = EnvOk [data] ->
+  forallb (fun kv : bytes * value => clean (snd kv)) data = true ->
+  exists ss isl, load_page fs cfg rel = LOk (ss, isl) /\
+  exists K, (K <= eval_fuel)%nat -> forall tpl name, alookup name tpl = Some ss ->
+    match run_nodes T fsp [data] (map (fill ins) L) with
+    | TOk out SigNormal _ => template_string cx0 cfg tpl name gd = StrOk out
+    | TOk _ _ _ => True
+    | TFail => exists e, template_string cx0 cfg tpl name gd = StrErr e
+    | TNoFuel | TUnprintable => True
+    end.
+Proof.
+  intros Hp Hu Hl Hul Hi Hc Hst Hlay Hok Hins Hiok He Hcl.
+  eexists. eexists. split; [exact (load_page_with_layout_and_components fs cfg rel p lp uln lname blocks Hp Hu Hl Hi Hc)|].
+  rewrite Hul.
+  set (lst := map (rw_stmt (fun _ => None) (by_rid_att blocks p lp) rw_fuel) (p_stmts lp)).
+  set (tgt := map cnode (map (fill ins) L)).
+  assert (S1 : map strip_s lst = map strip_s tgt).
+  { subst lst tgt. rewrite map_map. rewrite (map_ext _ _ (rw_strip _ _ rw_fuel)). rewrite <- (map_map strip_s), Hst.
+    rewrite !map_map. apply map_ext_in. intros n Hn.
+    pose proof (proj1 (Forall_forall _ _) Hlay n Hn) as Hl'.
+    refine (rw_fill ins (rid_name (p_reserves lp))
+              (fun c : nat => match (fun _ : nat => @None (list stmt)) c with Some b => Some (map strip_s b) | None => None end)
+              (fun r : nat => match by_rid_att blocks p lp r with Some x => Some (strip_ins x) | None => None end)
+              _ rw_fuel n Hl').
+    intros rid name Hrn. unfold by_rid_att. rewrite Hrn. apply Hins. }
+  pose proof (fill_all_ok ins (rid_name (p_reserves lp)) Hiok L Hlay Hok) as Hok'.
+  destruct (template_refines_specification fsp data (map (fill ins) L) Hcl Hok') as (K & HK).
+  exists (S (S K)). intros Hle tpl name Htpl.
+  assert (HF : exists F, eval_fuel = S (S F)) by (exists (Nat.pred (Nat.pred eval_fuel)); reflexivity).
+  destruct HF as [F HF]. specialize (HK F ltac:(lia)).
+  pose proof (lines_do_not_matter cx0 eval_fuel [data] [SUse uln lname (Some (true, false, lst))]
+                [SUse 1 lname (Some (true, false, tgt))] []
+                ltac:(cbn [map strip_s]; rewrite S1; reflexivity)) as Sm.
+  unfold template_string. rewrite He, Htpl.
+  rewrite HF in Sm |- *. rewrite (use_program cx0 F [data] 1 lname tgt) in Sm. fold tgt in HK.
+  destruct (run_nodes T fsp [data] (map (fill ins) L)) as [out sg sc| | |]; try exact I.
+  - destruct sg; try exact I. destruct HK as (en' & E). rewrite E in Sm.
+    destruct (eval_program cx0 (S (S F)) [data] [SUse uln lname (Some (true, false, lst))] []) as [r|ln msg| | |];
+      cbn in Sm; try contradiction.
+    subst r. reflexivity.
+  - destruct HK as (ln & msg & E). rewrite E in Sm.
+    destruct (eval_program cx0 (S (S F)) [data] [SUse uln lname (Some (true, false, lst))] []) as [r|ln' msg'| | |];
+      cbn in Sm; try contradiction.
+    eexists. reflexivity.
+Qed.
